@@ -7,6 +7,7 @@ CONSTANTS
   NVK = 1
   Kinds = {"val", "del"}
   L0L0KeepsTombstones = FALSE
+  BaseSkip = "none"
   MaxId = 6
   Wide = 0
   L0Hold = 0
